@@ -275,3 +275,59 @@ def init_prop_data(sysd, seed):
     pd["key"] = random.PRNGKey(seed)
     sysd["ham_data_built"] = hd
     return pd
+
+
+# ------------------------------------------------------------------------------------------ Hubbard / CPMC systems
+def make_hubbard(rng, lattice, nelec, u, dt, prop_kind="cpmc", trial_kind="uhf", n_walkers=6, u_1=0.0,
+                 poor_trial=False, proxied=True):
+    """lattice Hamiltonian set up as examples/hubbard.ipynb does: h1 = -adjacency, the on-site U as
+    Cholesky vectors in ham_data['chol'], ham_data['u'] = U; propagator/trial of the requested kind"""
+    import jax.numpy as jnp
+    from ad_afqmc import hamiltonian, propagation, wavefunctions
+    n = lattice.n_sites
+    adj = np.asarray(lattice.create_adjacency_matrix(), dtype=float)
+    h1 = -adj
+    chol = np.zeros((n, n, n))
+    for i in range(n):
+        chol[i, i, i] = np.sqrt(u)
+    ham = hamiltonian.hamiltonian(n)
+    hd = {"h0": 0.0, "h1": jnp.array([h1, h1]), "chol": jnp.array(chol.reshape(n, -1)), "ene0": 0.0, "u": u,
+          "u_1": u_1}
+    # mean-field-like trial: eigenvectors of h1 plus a staggered field (non-uniform density), or random
+    stag = np.diag([0.5 * (-1) ** i for i in range(n)])
+    if poor_trial:
+        qa, _ = np.linalg.qr(rng.normal(size=(n, n)))
+        qb, _ = np.linalg.qr(rng.normal(size=(n, n)))
+    else:
+        _, qa = np.linalg.eigh(h1 + stag)
+        _, qb = np.linalg.eigh(h1 - stag)
+    wd = {}
+    if trial_kind == "uhf":
+        T = wavefunctions.uhf_cpmc if prop_kind != "phaseless" else wavefunctions.uhf
+        wd["mo_coeff"] = [jnp.array(qa[:, : nelec[0]]), jnp.array(qb[:, : nelec[1]])]
+        wd["rdm1"] = jnp.array([qa[:, : nelec[0]] @ qa[:, : nelec[0]].T, qb[:, : nelec[1]] @ qb[:, : nelec[1]].T])
+    else:
+        T = wavefunctions.ghf_cpmc
+        C = np.zeros((2 * n, nelec[0] + nelec[1]))
+        th = np.pi / 5
+        C[:n, : nelec[0]] = np.cos(th) * qa[:, : nelec[0]]
+        C[n:, : nelec[0]] = np.sin(th) * qa[:, : nelec[0]]
+        C[:n, nelec[0]:] = -np.sin(th) * qb[:, : nelec[1]]
+        C[n:, nelec[0]:] = np.cos(th) * qb[:, : nelec[1]]
+        wd["mo_coeff"] = jnp.array(C)
+        dm = C @ C.T
+        wd["rdm1"] = jnp.array([dm[:n, :n], dm[n:, n:]])
+    nbrs = tuple((i, j) for i in range(n) for j in range(i + 1, n) if adj[i, j] != 0)
+    P = {"cpmc": propagation.propagator_cpmc, "cpmc_slow": propagation.propagator_cpmc_slow,
+         "cpmc_nn": propagation.propagator_cpmc_nn, "cpmc_nn_slow": propagation.propagator_cpmc_nn_slow,
+         "cpmc_continuous": propagation.propagator_cpmc_continuous,
+         "phaseless": propagation.propagator_unrestricted}[prop_kind]
+    if proxied:
+        P, T = proxies.prop_proxy(P), proxies.trial_proxy(T)
+    kw = {"neighbors": nbrs} if "nn" in prop_kind else {}
+    prop = P(dt=dt, n_walkers=n_walkers, **kw)
+    trial = T(n, nelec)
+    if prop_kind == "cpmc_continuous":
+        hd["hs_constant"] = float(np.arccosh(np.exp(dt * u / 2)))
+    return {"ham": ham, "ham_data": hd, "trial": trial, "wave_data": wd, "prop": prop, "norb": n, "nelec": nelec,
+            "kind": prop_kind}
